@@ -813,36 +813,7 @@ class Context:
 
         parseInt_fn = self._global_parseint  # the same function as the global
 
-        def parseFloat_fn(*args):
-            s = to_string(args[0]) if args else ""
-            s = s.strip()
-            if not s:
-                return float("nan")
-            # Find the longest valid float prefix
-            i = 0
-            has_dot = False
-            has_exp = False
-            if s[i] in "+-":
-                i += 1
-            while i < len(s):
-                if s[i].isdigit():
-                    i += 1
-                elif s[i] == "." and not has_dot:
-                    has_dot = True
-                    i += 1
-                elif s[i] in "eE" and not has_exp:
-                    has_exp = True
-                    i += 1
-                    if i < len(s) and s[i] in "+-":
-                        i += 1
-                else:
-                    break
-            if i == 0:
-                return float("nan")
-            try:
-                return float(s[:i])
-            except ValueError:
-                return float("nan")
+        parseFloat_fn = self._global_parsefloat  # the same function as the global
 
         num_constructor.set("isNaN", isNaN_fn)
         num_constructor.set("isFinite", isFinite_fn)
@@ -1174,44 +1145,21 @@ class Context:
             return sign * float("inf")
 
     def _global_parsefloat(self, *args):
-        """Global parseFloat."""
-        s = to_string(args[0]) if args else ""
-        s = s.strip()
-        if not s:
-            return float("nan")
+        """Global parseFloat, also Number.parseFloat: the value of the longest
+        prefix that is a StrDecimalLiteral (ASCII digits only; "1e" is 1)."""
+        import re
+        from .values import _JS_WHITESPACE
 
-        # Handle Infinity
-        if s.startswith("Infinity"):
-            return float("inf")
-        if s.startswith("-Infinity"):
-            return float("-inf")
-        if s.startswith("+Infinity"):
-            return float("inf")
-
-        i = 0
-        has_dot = False
-        has_exp = False
-        if s[i] in "+-":
-            i += 1
-        while i < len(s):
-            if s[i].isdigit():
-                i += 1
-            elif s[i] == "." and not has_dot:
-                has_dot = True
-                i += 1
-            elif s[i] in "eE" and not has_exp:
-                has_exp = True
-                i += 1
-                if i < len(s) and s[i] in "+-":
-                    i += 1
-            else:
-                break
-        if i == 0:
+        s = to_string(args[0] if args else UNDEFINED).lstrip(_JS_WHITESPACE)
+        m = re.match(
+            r"[+-]?(?:Infinity|(?:[0-9]+\.?[0-9]*|\.[0-9]+)(?:[eE][+-]?[0-9]+)?)", s
+        )
+        if not m:
             return float("nan")
-        try:
-            return float(s[:i])
-        except ValueError:
-            return float("nan")
+        text = m.group(0)
+        if text.endswith("Infinity"):
+            return float("-inf") if text[0] == "-" else float("inf")
+        return float(text)
 
     def eval(self, code: str) -> Any:
         """Evaluate JavaScript code and return the result.
